@@ -216,7 +216,8 @@ def _py_display(vram_bytes: bytes, sl: int = 0, on=(True, True), scratch: int = 
     content): it is fixed to `scratch`-filled memory here so that every rendering is reproducible; _display_purity varies it."""
     import numpy as _np
     lcd = HD61202Controller()
-    meta = {"chips": [{"on": bool(on[0]), "start_line": sl}, {"on": bool(on[1]), "start_line": sl}], "pages": 8, "width": 64}
+    sl0, sl1 = sl if isinstance(sl, (tuple, list)) else (sl, sl)
+    meta = {"chips": [{"on": bool(on[0]), "start_line": sl0}, {"on": bool(on[1]), "start_line": sl1}], "pages": 8, "width": 64}
     lcd.load_snapshot(meta, vram_bytes)
     orig_empty, orig_like = _np.empty, _np.empty_like
     _np.empty = lambda shape, dtype=float, *a, **k: _np.full(shape, scratch, dtype=dtype)
@@ -230,8 +231,10 @@ def _py_display(vram_bytes: bytes, sl: int = 0, on=(True, True), scratch: int = 
 
 def _rs_display_req(vram_bytes: bytes, sl: int = 0, on=(True, True)):
     # 0x2008 selects the left chip (index 0), 0x2004 the right one; 0x3F / 0x3E = display on / off
+    sl0, sl1 = sl if isinstance(sl, (tuple, list)) else (sl, sl)
     return {"cmd": "lcd", "script": [{"w": [0x2008, 0x3F if on[0] else 0x3E]}, {"w": [0x2004, 0x3F if on[1] else 0x3E]},
-                                     {"w": [0x2000, 0xC0 | (sl & 0x3F)]}, {"setvram": vram_bytes.hex()}, {"obs": True}]}
+                                     {"w": [0x2008, 0xC0 | (sl0 & 0x3F)]}, {"w": [0x2004, 0xC0 | (sl1 & 0x3F)]},
+                                     {"setvram": vram_bytes.hex()}, {"obs": True}]}
 
 
 def _pixelmap(args):
@@ -242,6 +245,12 @@ def _pixelmap(args):
     vb = VB()
     h = rb.harness() if impl == "rust" else None
     base_v = bytes(1024)
+    sl_chip = sl
+    if sl:
+        # each chip has its own start line register: the other chip is given a different one, which must not matter
+        sl = [(sl + 17) % 64, (sl + 17) % 64]
+        sl[chip] = sl_chip
+        sl = tuple(sl)
     if impl == "rust":
         base = h.call(_rs_display_req(base_v, sl, on))["out"][-1]["display"]
     else:
@@ -268,13 +277,13 @@ def _pixelmap(args):
             if len(changed) > 1:
                 multi += 1
                 vb.add(f"C15/{impl}/pixelmap/bit-drives-several-pixels{sfx}", f"{impl}: VRAM bit chip{key[0]} page{key[1]} col{key[2]} "
-                       f"bit{key[3]} changes {len(changed)} pixels {changed[:4]} (start line {sl})", {"pixelmap": impl, "key": list(key), "sl": sl})
+                       f"bit{key[3]} changes {len(changed)} pixels {changed[:4]} (start line {sl})", {"pixelmap": impl, "key": list(key), "sl": sl_chip})
             for px in changed:
                 if px in owner:
                     vb.add(f"C15/{impl}/pixelmap/pixel-driven-by-two-bits{sfx}", f"{impl}: pixel {px} driven by {owner[px]} and {key} (start line {sl})",
-                           {"pixelmap": impl, "key": list(key), "sl": sl, "chipwide": True})
+                           {"pixelmap": impl, "key": list(key), "sl": sl_chip, "chipwide": True})
                 owner[px] = key
-    return {"impl": impl, "n": n, "sl": sl, "chip": chip, "owner": {f"{r},{c}": list(k) for (r, c), k in owner.items()}, "vb": vb}
+    return {"impl": impl, "n": n, "sl": sl_chip, "chip": chip, "owner": {f"{r},{c}": list(k) for (r, c), k in owner.items()}, "vb": vb}
 
 
 def _single_write_check(impl) -> VB:
